@@ -18,9 +18,12 @@ Streams
                     environ keys (incl. REQUEST_URI, RAW_URI, SERVER_NAME, SERVER_PORT), builder properties
                     (query_string, args, base_url), Request.path / root_path / host / url / base_url / root_url /
                     host_url / full_path / args  vs  Model.UrlBuilder; oracle: args / query recovered
+  from-environ      environ of EnvironBuilder(path, query mapping, base_url) -> EnvironBuilder.from_environ ->
+                    get_environ -> Request vs Model.UrlBuilder.fromEnviron; oracle: Request.path / args / host / url
+                    equal those of the original environ (known findings F15f, and F15c through this call site)
   proxyfix          ProxyFix over trust counts x forwarded headers x environs vs Model.UrlProxyFix;
                     oracle: PATH_INFO unchanged, Request.path as without the middleware
-  gethost-kernel    sansio.utils.get_host(scheme, host) vs Model.UrlEnviron.getHost
+  gethost-kernel    sansio.utils.get_host(scheme, host[, server]) vs Model.UrlEnviron.getHost / UrlHostServer.getHostFull
 """
 from __future__ import annotations
 
@@ -99,7 +102,7 @@ class QuoteKernel(Stream):
         + [{"op": "unquote", "s": hs(s)} for s in ["", "abc", "%41", "%4", "%", "%%41", "%4%41", "%zz", "%C3%A9", "%c3%a9", "%C3", "%E2%82", "%E2%82%AC", "%F0%9F%98", "%FF%FE", "%ED%A0%80", "%F4%90%80%80", "%C0%AF", "é%C3", "%C3é%A9", "%E2%82a", "%F0%9F%98%80x", "a%00b", "%25", "%2541", "%C3%28", "%E2%28%A1", "%80%80", "%F0%80%80%80", "%E0%80%80", "%E0%A0%80", "%F4%8F%BF%BF"]]
         + [{"op": "part", "which": w, "s": hs(s)} for w in ("path", "query", "fragment", "user") for s in ["", "%2F", "%2f", "%41%2F%42", "%20%25%7F%00", "%26%3D%2B%23", "%3A%40", "%E2%20%82%AC", "%%34%31", "%2%35", "a%2Fb%C3%A9%FF", "%3F%23", "%C3%2F%A9", "%2F%2F", "x%2", "%2Fé%2F"]]
         + [{"op": "unquoter", "s": hs(s)} for s in ["", "%41", "%C3%A9", "%C3", "%E2%82", "%FF%FE", "%ED%A0%80", "%F0%9F%98", "é%C3", "%E2%82a", "%F4%90%80%80", "%C0%AF"]]
-        + [{"op": "envpath", "s": hs(s)} for s in ["/", "/é/日本", "/a b", "/%41", "/%zz", "/%FF", "/a%2Fb", "/😀/\x7f\xa0", "//x", "x", ""]]
+        + [{"op": "envpath", "s": hs(s)} for s in ["/", "/é/日本", "/a b", "/%41", "/%zz", "/%FF", "/a%2Fb", "/😀/\x7f\xa0", "//x", "x", "", "///", "///x", "////", "////x"]]
         + [{"op": "dance", "s": hs(s)} for s in ["", "/é", "/日本/😀", "\x80\xff", "ÿ", "\U0010ffff", "a%20b"]]
         + [{"op": "undance", "s": hs(s)} for s in ["", "/Ã©", "\xff", "\xc3", "\xe2\x82", "é", "Ā", "\xe6\x97\xa5"]]
     )
@@ -160,8 +163,15 @@ class QuoteKernel(Stream):
         if op == "unquoter":
             return line("unquoter", case["s"])
         if op == "envpath":
-            # urlsplit is opaque: the model gets the path component urlsplit yields
-            return line("envpath", hs(urlsplit(unhs(case["s"])).path))
+            # urlsplit is opaque: the model gets the path component urlsplit yields. A component that itself starts
+            # with '//' (argument '////...': outside the property's "paths not starting with '//'") is read as an
+            # authority once more by iri_to_uri - that is the whole-builder model's business (streams environ-kernel /
+            # builder-forms), not this kernel's (Url.environPathInfo = dance(unquote(quote(path))))
+            try:
+                comp = urlsplit(unhs(case["s"])).path
+            except ValueError:
+                return None  # urlsplit refuses the argument ('//[...', NFKC): so does EnvironBuilder; nothing to model here
+            return None if comp.startswith("//") else line("envpath", hs(comp))
         if op == "part":
             return line("unquotepart", case["which"], case["s"])
         if op == "dance":
@@ -591,8 +601,23 @@ def opaque_params(path, base):
     return [hs(ra), opt(hs, ca), hs(ru), opt(hs, cu), "1" if bo else "0", "1" if no else "0"]
 
 
+def nested_host(path):
+    """does the path component of `path` itself start with '//' and name a host ('////x': urlsplit gives the path
+    '//x', which iri_to_uri reads as an authority once more)? Such arguments are outside the property's quantifier
+    ("paths not starting with '//'"), and the opaque IDNA / ipaddress / NFKC verdicts for that second host are not
+    part of the driver lines: they are not sent to the model."""
+    try:
+        comp = urlsplit(path).path
+        return comp.startswith("//") and bool(urlsplit(comp).netloc)
+    except ValueError:
+        return False
+
+
 def builder_line(path, base, q, fromenv=False):
-    """driver line of the `builder` op; q = None | str | list of pairs (in the order the mapping yields them)"""
+    """driver line of the `builder` op; q = None | str | list of pairs (in the order the mapping yields them);
+    None (no model comparison) for a path argument with a nested authority"""
+    if nested_host(path):
+        return None
     qa = "~" if q is None else "s:" + hs(q) if isinstance(q, str) else "m:" + out_pairs(q)
     return line("builder", hs(path), opt(hs, base), qa, *opaque_params(path, base), "1" if fromenv else "0")
 
@@ -629,7 +654,7 @@ class EnvironRoundtrip(Stream):
 
     def cases(self, rng, tier):
         n = 0
-        limit = 1500 if tier == "quick" else 30000
+        limit = 1500 if tier == "quick" else 20000
         while n < limit:
             n += 1
             segs = [rand_clean(rng, CLEAN, 0, 4) for _ in range(rng.randrange(1, 4))]
@@ -813,6 +838,8 @@ class EnvironKernel(Stream):
         from werkzeug.urls import _decode_idna, iri_to_uri
 
         base = self.base_url(case)
+        if nested_host(unhs(case["path"])):
+            return None
         sp = urlsplit(base)
         ra = sp._hostinfo[0] or ""
         try:
@@ -1005,6 +1032,11 @@ class BuilderForms(Stream):
             ("/p", "bad4", "none", None, False),
             ("", None, "none", None, False),
             ("rel", None, "none", None, False),
+            # thorough tier, seed 1: '////' - the path component '//' is read as an (empty) authority once more
+            ("////", 0, "none", None, False),
+            ("////", 0, "none", None, True),
+            ("///x", 1, "none", None, False),
+            ("////x", 0, "none", None, False),  # nested host: oracle only
         ]
     ]
 
@@ -1117,6 +1149,13 @@ class BuilderForms(Stream):
             want = grouped(self.pairs(case))
         if req["args"] != want:
             return f"Request.args {req['args']!r} != {want!r} (query_string given as {k})"
+        # ... and by the reconstructed URL: its query component denotes the mapping (environ_url_query_denotes_mapping)
+        try:
+            uq = parse_qsl(urlsplit(req["url"]).query, keep_blank_values=True, errors="strict")
+        except ValueError as e:  # urlsplit refuses the URL / a component is not UTF-8
+            return f"Request.url {req['url']!r}: query component unreadable ({type(e).__name__})"
+        if uq != want:
+            return f"Request.url query {urlsplit(req['url']).query!r} denotes {uq!r}, not {want!r} (query_string given as {k})"
         return None
 
     def bucket(self, case, real_out):
@@ -1128,6 +1167,199 @@ class BuilderForms(Stream):
         if isinstance(case["q"], list):
             for i in range(len(case["q"])):
                 yield dict(case, q=case["q"][:i] + case["q"][i + 1 :])
+
+
+FE_PIECES = CLEAN + ["%2541", "%2561", "%25C3%25A9", "%253F", "%2523", "%252F", "%2525", "%25", "%254", "%25zz", "%25%34%31", "%3F", "%23", "%09", "%0A", "%0D", "%41", "%C3%A9", "%FF", "%2F"]
+HEX2 = re.compile(r"%[0-9A-Fa-f]{2}")
+
+
+class FromEnviron(Stream):
+    """EnvironBuilder.from_environ: the environ a builder made from (path, query mapping, base_url) is turned back
+    into a builder; the request of the environ THAT builder makes must report the same path / args / host / url
+    as the request of the original environ (the path, query and base URL reach the second builder through the
+    environ). Base URLs are those of BASES (no '%', '?', '#' in the root path: SCRIPT_NAME goes through the same
+    URL-syntax parameter, base_url, and is not what this stream varies).
+
+    Domain of the claim: the decoded PATH_INFO of the original environ starts with exactly one '/' (also after
+    the TAB / CR / LF removal of F15c) - the property's "paths not starting with '//'", and WSGI's "PATH_INFO is
+    empty or starts with '/'"."""
+
+    name = "from-environ"
+    F15F_TAG = "[from_environ read the decoded PATH_INFO as URL syntax: %XX decoded once more, '#...' cut, '?' refused; every other field is recovered]"
+    F15C_TAG = "[TAB/CR/LF removed by urlsplit inside from_environ's EnvironBuilder(path=...); every other field is recovered]"
+    corpus = [
+        {"path": hs(p), "query": [[hs(k), hs(v)] for k, v in q], "base": b}
+        for p, q, b in [
+            ("/", [], 0),
+            ("/é/日本 x", [("é", "ü"), ("a", "b c"), ("a", "&=+%#")], 1),
+            ("/a b/c+d;v=1", [("k", "")], 2),
+            ("/%2541", [], 0),  # F15f: PATH_INFO '/%41' comes back as '/A'
+            ("/a%3Fb", [], 0),  # F15f: PATH_INFO '/a?b' is refused (ValueError)
+            ("/a%23b", [("k", "v")], 1),  # F15f: PATH_INFO '/a#b' comes back as '/a'
+            ("/%25C3%25A9/%2525", [("q", "%41")], 8),
+            ("/a%09b", [], 0),  # F15c through from_environ
+            ("/100%25", [], 0),  # a literal '%' that starts no escape is recovered
+            ("/%254/%25zz/%25", [("%", "%41")], 4),
+            ("/%2Fx/y", [], 0),  # PATH_INFO '//x/y': outside the domain
+            ("/%09/x", [], 0),  # PATH_INFO '/\t/x': outside the domain (reads as '//x' after F15c)
+            ("/%FF/%C3", [], 3),
+            ("/p", [("\x00", "\t\n")], 9),
+            ("/\x7f\xa0ÿ/😀", [("😀", "\U0010ffff")], 7),
+        ]
+    ]
+
+    def cases(self, rng, tier):
+        n, limit = 0, (1200 if tier == "quick" else 4000)  # each known-finding classification runs the driver once
+        while n < limit:
+            n += 1
+            r = rng.random()
+            alphabet = CLEAN if r < 0.5 else FE_PIECES
+            segs = [rand_clean(rng, alphabet, 0, 4) for _ in range(rng.randrange(1, 4))]
+            path = "/" + "/".join(segs)
+            q = [[hs(rand_clean(rng, QCHARS, 0, 3)), hs(rand_clean(rng, QCHARS, 0, 4))] for _ in range(rng.randrange(0, 3))]
+            yield {"path": hs(path), "query": q, "base": rng.randrange(len(BASES))}
+
+    @staticmethod
+    def base_url(case):
+        return EnvironRoundtrip.base_url(case)[4]
+
+    @staticmethod
+    def items(case):
+        return grouped([(unhs(k), unhs(v)) for k, v in case["query"]])
+
+    def first(self, case):
+        """the original builder's environ and what its request reports"""
+        from werkzeug.datastructures import MultiDict
+        from werkzeug.test import EnvironBuilder
+        from werkzeug.wrappers import Request
+
+        b = EnvironBuilder(path=unhs(case["path"]), query_string=MultiDict([(unhs(k), unhs(v)) for k, v in case["query"]]), base_url=self.base_url(case))
+        try:
+            env = b.get_environ()
+        finally:
+            b.close()
+        req = Request(env)
+        return env, {"path": req.path, "host": req.host, "url": req.url, "args": list(req.args.items(multi=True))}
+
+    def real(self, case):
+        from werkzeug.test import EnvironBuilder
+
+        env, _ = self.first(case)
+        b2 = EnvironBuilder.from_environ(env)
+        try:
+            return builder_report(b2)
+        finally:
+            b2.close()
+
+    def model_line(self, case):
+        try:
+            pi = self.decoded_path_info(self.first(case)[0])
+        except Exception:  # noqa: BLE001 - the original builder refuses the arguments; the model must refuse them too
+            pi = None
+        if pi is not None and not self.in_domain(pi):
+            # outside the domain: a PATH_INFO starting with '//' is read as an authority by the second builder; the
+            # opaque ipaddress / NFKC / IDNA verdicts for THAT netloc are not part of this stream's driver line
+            return None
+        return builder_line(unhs(case["path"]), self.base_url(case), self.items(case), True)
+
+    @staticmethod
+    def decoded_path_info(env):
+        return env["PATH_INFO"].encode("latin1").decode("utf-8", "replace")
+
+    @staticmethod
+    def in_domain(pi):
+        return pi.startswith("/") and not pi.startswith("//") and not strip_tcl(pi).startswith("//")
+
+    @staticmethod
+    def reinterpreted(pi):
+        """what a decoded PATH_INFO becomes when it is read as the URL-syntax `path` argument (the specific shape
+        of F15f / F15c): None = refused because of '?', else TAB / CR / LF deleted, cut at '#', unquoted"""
+        if "?" in pi:
+            return None
+        p = strip_tcl(pi).split("#", 1)[0]
+        return "/" + unquote(p).lstrip("/")
+
+    def oracle(self, case, real_out):
+        try:
+            env, r0 = self.first(case)
+        except Exception:  # noqa: BLE001 - the original builder refuses the arguments: no environ to turn back
+            return None
+        pi = self.decoded_path_info(env)
+        if not self.in_domain(pi):
+            return None
+        f15f = bool(HEX2.search(pi)) or "?" in pi or "#" in pi
+        f15c = strip_tcl(pi) != pi
+        tag = (" " + self.F15F_TAG) if f15f else (" " + self.F15C_TAG) if f15c else ""
+        if real_out.startswith("EXC"):
+            known_shape = f15f and "?" in pi and real_out == "EXC:ValueError"
+            return f"from_environ / get_environ raised {real_out} on the environ of a request for {r0['path']!r}" + (tag if known_shape else "")
+        _env, _bp, req = split_report(real_out)
+        eff = r0["path"]
+        if (f15f or f15c) and req["path"] != r0["path"] and req["path"] == self.reinterpreted(pi):
+            eff = req["path"]  # the specific shape of the known findings; everything else must still hold
+        else:
+            tag = ""
+        if req["args"] != r0["args"]:
+            return f"Request.args after from_environ {req['args']!r} != {r0['args']!r}"
+        if req["host"] != r0["host"]:
+            return f"Request.host after from_environ {req['host']!r} != {r0['host']!r}"
+        if eff == r0["path"]:
+            if req["url"] != r0["url"]:
+                return f"Request.url after from_environ {req['url']!r} != {r0['url']!r}"
+        else:
+            try:
+                s0, s2 = urlsplit(r0["url"]), urlsplit(req["url"])
+            except ValueError as e:
+                return f"Request.url after from_environ {req['url']!r} does not parse: {e}"
+            root = BASES[case["base"]][3]
+            if (s2.scheme, s2.netloc, s2.query, s2.fragment) != (s0.scheme, s0.netloc, s0.query, s0.fragment) or unquote(s2.path) != root + eff:
+                return f"Request.url after from_environ {req['url']!r} is not {r0['url']!r} with the path replaced by {eff!r}"
+        if req["path"] != r0["path"]:
+            return f"Request.path after from_environ {req['path']!r} != {r0['path']!r}" + tag
+        return None
+
+    def finding_key(self, case, what):
+        """F15f only for its specific shape: the decoded PATH_INFO contains '%' + two hex digits, '?' or '#'; the
+        outcome is exactly the reinterpretation (oracle: tag) with every other field recovered; and the Lean model
+        of from_environ (`from_environ_roundtrip_full_false`) predicts exactly the observed report. Without those
+        characters but with TAB / CR / LF it is F15c (from_environ calls EnvironBuilder(path='/a\\tb'))."""
+        key = "F15f" if what.endswith(self.F15F_TAG) else "F15c" if what.endswith(self.F15C_TAG) else None
+        if key is None:
+            return None
+        try:
+            env, _ = self.first(case)
+            pi = self.decoded_path_info(env)
+        except Exception:  # noqa: BLE001
+            return None
+        has_f = bool(HEX2.search(pi)) or "?" in pi or "#" in pi
+        if (key == "F15f") != has_f or (key == "F15c" and strip_tcl(pi) == pi):
+            return None
+        from vlib.core import Driver, real_out
+
+        real = real_out(self, case)
+        d = Driver("C15")
+        if d.ok:
+            try:
+                if d.batch([self.model_line(case)])[0] != real:
+                    return None
+            except Exception:  # noqa: BLE001
+                return None
+        return key
+
+    def nontrivial(self, case, real_out):
+        return not real_out.startswith("EXC") and unhs(case["path"]) != "/"
+
+    def bucket(self, case, real_out):
+        p = unhs(case["path"])
+        return ("exc" if real_out.startswith("EXC") else "ok") + (":pct" if "%" in p else "")
+
+    def mutate(self, case, rng):
+        p = unhs(case["path"])
+        for i in range(1, len(p)):
+            yield {"path": hs(p[:i] + p[i + 1 :]), "query": case["query"], "base": case["base"]}
+        for i in range(len(case["query"])):
+            yield {"path": case["path"], "query": case["query"][:i] + case["query"][i + 1 :], "base": case["base"]}
+        yield {"path": case["path"], "query": [], "base": 0}
 
 
 PF_HOSTS = ["example.com", "example.com:8080", "example.com:80", "[::1]", "[::1]:5000", "10.0.0.1:443", "h", "h:", "a:b:c", "", "x]"]
@@ -1274,28 +1506,54 @@ class ProxyFixStream(Stream):
 
 
 class GetHostKernel(Stream):
+    """sansio.utils.get_host(scheme, host_header[, server]): the Host header, or without one the (SERVER_NAME,
+    SERVER_PORT) fallback (IPv6 names bracketed, port appended), minus the scheme's default port"""
+
     name = "gethost-kernel"
-    corpus = [{"scheme": s, "host": hs(h)} for s in ["http", "https", "ws", "wss", "ftp"] for h in ["h", "h:80", "h:443", "10.0.0.80:80", "h80", "[::1]:80", "[::80]", ":80", "", "h:080", "h:4430", "é:80"]]
+    corpus = [{"scheme": s, "host": hs(h)} for s in ["http", "https", "ws", "wss", "ftp"] for h in ["h", "h:80", "h:443", "10.0.0.80:80", "h80", "[::1]:80", "[::80]", ":80", "", "h:080", "h:4430", "é:80"]] + [
+        {"scheme": s, "host": h, "server": srv}
+        for s in ["http", "https"]
+        for h, srv in [(None, [hs("h"), 80]), (None, [hs("h"), 443]), (None, [hs("::1"), 5000]), (None, [hs("[::1]"), 80]), (None, [hs("/tmp/sock"), None]), (None, None), (hs("hdr:8080"), [hs("h"), 80]), (None, [hs(""), 0]), (None, [hs("2001:db8::443"), 443])]
+    ]
 
     def cases(self, rng, tier):
         n, limit = 0, (600 if tier == "quick" else 20000)
         while n < limit:
             n += 1
             h = rng.choice(["h", "example.com", "10.0.0.80", "[::1]", "[::80]", "é.example", "x443", "web08", ""]) + rng.choice(["", "", ":80", ":443", ":8080", ":080", ":4430", ":180", ":80:80", ":"])
-            yield {"scheme": rng.choice(["http", "https", "ws", "wss", "ftp", "HTTP", ""]), "host": hs(h)}
+            scheme = rng.choice(["http", "https", "ws", "wss", "ftp", "HTTP", ""])
+            if rng.random() < 0.6:
+                yield {"scheme": scheme, "host": hs(h)}
+            else:
+                name = rng.choice(["h", "example.com", "10.0.0.80", "::1", "[::1]", "2001:db8::80", "é.example", "", "/run/x.sock", "a:b", "[", "x443"])
+                port = rng.choice([None, 80, 443, 8080, 0, 65535, 4430, 180, 10**12])
+                yield {"scheme": scheme, "host": None if rng.random() < 0.8 else hs(h), "server": None if rng.random() < 0.1 else [hs(name), port]}
+
+    @staticmethod
+    def args(case):
+        host = None if case["host"] is None else unhs(case["host"])
+        srv = case.get("server")
+        return host, (None if srv is None else (unhs(srv[0]), srv[1]))
 
     def real(self, case):
         from werkzeug.sansio.utils import get_host
 
-        return hs(get_host(case["scheme"], unhs(case["host"])))
+        host, srv = self.args(case)
+        return hs(get_host(case["scheme"], host) if "server" not in case else get_host(case["scheme"], host, srv))
 
     def model_line(self, case):
-        return line("gethost", hs(case["scheme"]), case["host"])
+        if "server" not in case:
+            return line("gethost", hs(case["scheme"]), case["host"])
+        srv = case["server"]
+        return line("gethost3", hs(case["scheme"]), opt(str, case["host"]), opt(str, None if srv is None else srv[0]), opt(str, None if srv is None else srv[1]))
 
     def oracle(self, case, real_out):
-        """the host is recovered: only the scheme's default port may be missing from what was given"""
+        """the host is recovered: only the scheme's default port may be missing from what was given (nothing is
+        claimed about the fallback to the server address: model correspondence only)"""
         if real_out.startswith("EXC"):
             return f"get_host raised {real_out}"
+        if case["host"] is None:
+            return None
         host, got = unhs(case["host"]), unhs(real_out)
         default = {"http": ":80", "ws": ":80", "https": ":443", "wss": ":443"}.get(case["scheme"])
         if got != host and not (default and host == got + default):
@@ -1303,15 +1561,16 @@ class GetHostKernel(Stream):
         return None
 
     def bucket(self, case, real_out):
-        return "cut" if real_out != case["host"] else "same"
+        return ("server:" if case["host"] is None else "") + ("cut" if real_out != case["host"] else "same")
 
 
 CHECK = Check(
     prop="C15",
-    gen=["UrlTables", "UrlGlue", "Urlencode", "PyFns_Url"],
-    modules=["WzVerif.Props.C15", "WzVerif.Props.C15T"],
-    streams=[QuoteKernel(), UrlsplitKernel(), IriUri(), EnvironRoundtrip(), EnvironKernel(), BuilderForms(), Dispatcher(), ProxyFixStream(), GetHostKernel()],
+    gen=["UrlTables", "UrlGlue", "Urlencode", "PyFns_Url", "Http", "PyFns_Http", "PyFns_HttpDict", "PyFns_Internal", "PyFns_ProxyFix"],
+    modules=["WzVerif.Props.C15", "WzVerif.Props.C15T", "WzVerif.Props.C15T2"],
+    streams=[QuoteKernel(), UrlsplitKernel(), IriUri(), EnvironRoundtrip(), EnvironKernel(), BuilderForms(), FromEnviron(), Dispatcher(), ProxyFixStream(), GetHostKernel()],
     assumptions=[
+        "C15T2 (ProxyFix._get_real_value / __call__ as regenerated from the source): the environ is a dict of texts (the nested bookkeeping entry werkzeug.proxy_fix.orig and the bound-method alias environ_get = environ.get are declared no-ops); the result is the environ handed to the wrapped application",
         "round 3: DispatcherMiddleware.__call__ (its while ... else loop with explicit fuel, rsplit, the mounts dict as its item list, apps abstract) is regenerated from the source (Gen/PyFns_Url.lean dispatcher_call) and proved equal to the hand model Url.dispatch for every mount table, SCRIPT_NAME and PATH_INFO with fuel >= len(PATH_INFO) + 1 (Props/C15T)",
         "get_current_url, _wsgi_decoding_dance, _wsgi_encoding_dance and the bodies of iri_to_uri / uri_to_iri (between urlsplit and urlunsplit) are regenerated from the source by tools/py2lean.py (Gen/PyFns_Url.lean) on every run and proved equal to the hand model for all inputs (Props/C15T); urllib's quote enters as the hand model Url.quote with the safe= literal of each call as an argument (pinned against Gen/UrlTables by safe_literals_pinned), urlsplit / IDNA / _make_unquote_part's functions stay parameters resp. model functions; the CPython primitives the translated code calls (str.rstrip/lstrip(chars), join, latin-1 / UTF-8 codecs) are modelled in Util/PyPrelude.lean and validated by the stream prelude-kernels that the checks C01, C04, C06, C09, C11, C14, C17, C19, C20 run",
         "urllib.parse.urlsplit / urlunsplit and the SplitResult attributes (username, password, hostname, port incl. validation, TAB/CR/LF and leading C0/space stripping, scheme lower-casing, bracket checks) are modelled (Model/UrlSplit.lean) and validated by stream urlsplit-kernel; still opaque, evaluated by the harness with the same library calls and passed to the driver per URL: ipaddress validation of a bracketed host, the NFKC test of _checknetloc for non-ASCII netlocs, and hostname.lower() + IDNA codec / _decode_idna. The URL-text theorems assume the stated laws of these (HostLaws / AsciiHostLaws, shown satisfiable) and are for URLs of the grammar: scheme and host present, components in the %XX grammar, no raw delimiter in the userinfo",
@@ -1321,15 +1580,19 @@ CHECK = Check(
         "the one-step fixpoint / round-trip claims (theorems and oracle) are for text whose every '%' starts a two-hex-digit escape (the property's '%XX' grammar); a bare '%' is only compared against the model, and the negation is proved on the witness '%%34%31'",
         "environ-roundtrip is stated for paths starting with one '/', without '%', '?', '#' (URL syntax for EnvironBuilder's path argument: these are interpreted, not transported); tab/CR/LF in the path are removed by urlsplit inside EnvironBuilder (known finding F15c - a violation is mapped to F15c only when Request.path is the argument with exactly TAB/CR/LF removed, every other clause holds for the stripped path, and the Lean model predicts exactly the observed outcome); queries are arbitrary str mappings without lone surrogates",
         "DispatcherMiddleware is modelled on the raw environ strings (it compares mount keys with PATH_INFO as is)",
+        "from-environ is stated for environs whose decoded PATH_INFO starts with exactly one '/' (WSGI; the property's \"paths not starting with '//'\"); base URLs are those of the fixed table (no '%', '?', '#' in SCRIPT_NAME, which goes through the URL-syntax base_url in the same way). Known finding F15f: a violation is mapped to it only when the decoded PATH_INFO contains '%' + two hex digits, '?' or '#', the observed Request.path is exactly that text read as URL syntax (TAB/CR/LF deleted, cut at '#', unquoted once; ValueError for '?'), every other clause holds, and the Lean model of from_environ predicts exactly the observed report; with TAB/CR/LF only it is F15c (from_environ calls EnvironBuilder(path='/a\\tb'))",
+        "path arguments whose path component itself starts with '//' and names a host ('////x': read as an authority a second time inside iri_to_uri) are outside the property's quantifier and are not sent to the model (the opaque IDNA / ipaddress / NFKC verdicts for that second host are not part of the driver lines); the kernel op envpath (Url.environPathInfo) is compared only for path components not starting with '//'",
+        "the reconstructed URL's query component denotes the mapping (environ_url_query_denotes_mapping): C02's unquote model inside parse_qsl is proved equal to this property's (unquote_models_agree); get_current_url's quote leaves _urlencode's alphabet alone by a decide obligation over the two regenerated safe= literals (urlencode_alphabet_fixed)",
+        "sansio get_host's fallback to (SERVER_NAME, SERVER_PORT) is modelled (Model/UrlHostServer.lean), validated by stream gethost-kernel and tied by the regenerated live table Gen.UrlGlue.getHostServerTable (get_host_server_table_agrees); trusted_hosts is not part of this property",
     ],
     trusted_extra=["CPython urllib.parse / codecs (utf-8, latin-1, idna) semantics for the modelled or opaque primitives (validated by the streams where modelled, not verified)"],
     quick_budget=5000,
-    thorough_budget=80000,
+    thorough_budget=60000,
 )
 
 MANIFEST = {
-    "level_text": "Machine-checked Lean 4 theorems about an executable model of urllib quote/unquote with werkzeug's error handler, iri_to_uri / uri_to_iri on split components, the latin-1 dances and DispatcherMiddleware's mount loop: quote output is ASCII for every input and idempotent for every safe set iri_to_uri uses (decide on the literals collected from the AST on every run), hence iri_to_uri is ASCII and idempotent component-wise; the dance round trip is lossless for every string; uri_to_iri is a fixpoint after one step on every component whose '%' all start '%XX' escapes (UTF-8 decoder with CPython's error spans modelled; keep tables evaluated from the live patterns); the dispatcher preserves SCRIPT_NAME+PATH_INFO and picks the longest '/'-boundary mount. IRI->URI->IRI is stable after one round for every component of that grammar (the model's UTF-8 decoder and Lean's encoder are proved mutually inverse); unquote inverts quote on text without '%', hence the path given to EnvironBuilder reaches Request.path unchanged through the dances. urlsplit / urlunsplit are modelled too, and the component theorems are lifted to whole URL text for URLs of the grammar (iri_to_uri ASCII + idempotent; uri_to_iri one-step fixpoint; IRI->URI->IRI stable) under stated laws of the opaque IDNA / ipaddress / NFKC steps. Tied to the code by differential streams (incl. urlsplit-kernel and the end-to-end environ-kernel); the environ round trip is proved from EnvironBuilder's arguments (urlsplit(path), both iri_to_uri calls, the base_url setter, _path_encode, the dances, Request.__init__, get_host, get_current_url) to Request.path / root_path / host / url, with every exclusion shown necessary; Request.args recovers every Unicode mapping (composition with C02's parse_qsl / _urlencode theorem); full_path, the url / base_url / root_url / host_url family as text, from_environ, get_host on every host[:port], the dispatcher's default case and ProxyFix (PATH_INFO untouched, n-th value from the right, port and prefix rewriting) have theorems; constants and shapes of the glue (default ports, keep sets, environ dict entries, call sites, ProxyFix writes) are regenerated from the source and tied by decide obligations.",
-    "level_note": "Trusted: Lean kernel; extract.py; the correspondence harness; CPython urllib/codecs for modelled primitives. urlsplit/urlunsplit are modelled; IDNA, ipaddress and the NFKC test are opaque with stated laws; parse_list_header (ProxyFix) is C06's. All DESIGN theorems (P0, P1) proved, nothing OPEN. Known finding F15c (EnvironBuilder drops TAB/CR/LF from the path); F15a / F15b / F15d (Request.url read a literal %XX of the unquoted path as an escape, 899f28c) / F15e (wsgi.get_current_url skipped the decoding dance, 16e16ac) were repaired in /repo (c7898ed, 319c4e1) and are regression cases of stream iri-uri.",
+    "level_text": "Machine-checked Lean 4 theorems about an executable model of urllib quote/unquote with werkzeug's error handler, iri_to_uri / uri_to_iri on split components, the latin-1 dances and DispatcherMiddleware's mount loop: quote output is ASCII for every input and idempotent for every safe set iri_to_uri uses (decide on the literals collected from the AST on every run), hence iri_to_uri is ASCII and idempotent component-wise; the dance round trip is lossless for every string; uri_to_iri is a fixpoint after one step on every component whose '%' all start '%XX' escapes (UTF-8 decoder with CPython's error spans modelled; keep tables evaluated from the live patterns); the dispatcher preserves SCRIPT_NAME+PATH_INFO and picks the longest '/'-boundary mount. IRI->URI->IRI is stable after one round for every component of that grammar (the model's UTF-8 decoder and Lean's encoder are proved mutually inverse); unquote inverts quote on text without '%', hence the path given to EnvironBuilder reaches Request.path unchanged through the dances. urlsplit / urlunsplit are modelled too, and the component theorems are lifted to whole URL text for URLs of the grammar (iri_to_uri ASCII + idempotent; uri_to_iri one-step fixpoint; IRI->URI->IRI stable) under stated laws of the opaque IDNA / ipaddress / NFKC steps. Tied to the code by differential streams (incl. urlsplit-kernel and the end-to-end environ-kernel); the environ round trip is proved from EnvironBuilder's arguments (urlsplit(path), both iri_to_uri calls, the base_url setter, _path_encode, the dances, Request.__init__, get_host, get_current_url) to Request.path / root_path / host / url, with every exclusion shown necessary; Request.args recovers every Unicode mapping (composition with C02's parse_qsl / _urlencode theorem); full_path, the url / base_url / root_url / host_url family as text, from_environ, get_host on every host[:port], the dispatcher's default case and ProxyFix (PATH_INFO untouched, n-th value from the right, port and prefix rewriting) have theorems; constants and shapes of the glue (default ports, keep sets, environ dict entries, call sites, ProxyFix writes) are regenerated from the source and tied by decide obligations. The query component of the reconstructed URL, parsed by parse_qsl, is the mapping given to the builder for every list of pairs over Unicode (C02's unquote model proved equal to this one; uri_to_iri's query unquoter proved not to change what parse_qsl reads on every %XX-well-formed text); get_host's server-address fallback is modelled and tied to a live table.",
+    "level_note": "Trusted: Lean kernel; extract.py; the correspondence harness; CPython urllib/codecs for modelled primitives. urlsplit/urlunsplit are modelled; IDNA, ipaddress and the NFKC test are opaque with stated laws; parse_list_header (ProxyFix) is C06's. All DESIGN theorems (P0, P1) proved, nothing OPEN. Known findings F15c (EnvironBuilder drops TAB/CR/LF from the path) and F15f (EnvironBuilder.from_environ reads the decoded PATH_INFO as URL syntax: %XX decoded once more, '#...' cut, '?' refused - negation witness from_environ_roundtrip_full_false, _partial from_environ_roundtrip for every path without a %XX escape); F15a / F15b / F15d (Request.url read a literal %XX of the unquoted path as an escape, 899f28c) / F15e (wsgi.get_current_url skipped the decoding dance, 16e16ac) were repaired in /repo (c7898ed, 319c4e1) and are regression cases of stream iri-uri.",
     "technique": "Lean 4 proof (induction over byte lists, decide over AST-collected literals and regenerated keep tables, loop invariant for the dispatcher) + model/code correspondence + property oracles",
     "design_ref": "DESIGN.md section 4, C15",
 }
